@@ -284,4 +284,19 @@ mod verif_inplace {
             Err(_) => assert!(w.is_none()),
         }
     }
+
+    /// experiment (not registered): one concrete literal
+    #[kani::proof]
+    #[kani::unwind(8)]
+    #[kani::stub(std::arch::x86_64::_mm_max_epu8, mm_max_epu8_flat)]
+    #[kani::stub(crate::util::unicode::handle_unicode_codepoint_mut, unicode_unreachable)]
+    fn parse_string_inplace_concrete() {
+        let mut buf = [0u8; 3 + 64];
+        buf[0] = b'a'; buf[1] = b'\\'; buf[2] = b'n'; buf[3] = b'x'; buf[4] = b'"'; buf[5] = b'x';
+        let start = buf.as_mut_ptr();
+        let mut src = start;
+        let r = unsafe { parse_string_inplace(&mut src, false) };
+        assert!(r.is_ok());
+        assert!(buf[0] == b'a' && buf[1] == b'\n' && buf[2] == b'x');
+    }
 }
